@@ -470,7 +470,7 @@ def sample(ty, name, fn):
         'spif_str_t': 'mk_str(variant)', 'spif_ustr_t': 'mk_ustr(variant)', 'spif_mbuff_t': 'mk_mbuff(variant)', 'spif_obj_t': 'mk_obj(variant)',
         'spif_charptr_t': 'mk_cstr()', 'spif_byteptr_t': '(spif_byteptr_t) mk_cstr()', 'char *': 'mk_cstr()', 'spif_ptr_t': '(spif_ptr_t) mk_cstr()',
         'spif_objpair_t': 'mk_pair(variant)', 'spif_tok_t': 'mk_tok(variant)', 'spif_url_t': 'mk_url(variant)', 'spif_regexp_t': 'mk_regexp(variant)',
-        'spif_socket_t': 'mk_socket()', 'spif_array_t': 'mk_array(K)', 'spif_linked_list_t': 'mk_llist(K)', 'spif_dlinked_list_t': 'mk_dlist(K)',
+        'spif_socket_t': 'mk_socket()', 'spif_array_t': 'mk_array_v(K, variant)', 'spif_linked_list_t': 'mk_llist_v(K, variant)', 'spif_dlinked_list_t': 'mk_dlist_v(K, variant)',
         'spif_list_t': 'mk_list()', 'spif_vector_t': 'mk_vector()', 'spif_map_t': 'mk_map()',
         'spif_array_iterator_t': 'mk_array_iter()', 'spif_linked_list_iterator_t': 'mk_llist_iter()', 'spif_dlinked_list_iterator_t': 'mk_dlist_iter()',
         'spif_iterator_t': 'mk_iter()', 'spif_class_t': 'SPIF_CLASS_VAR(str)', 'spif_classname_t': '(spif_classname_t) mk_cstr()',
@@ -576,7 +576,7 @@ def emit(probe=False):
             K = 'KM'
         elif 'vector' in tn:
             K = 'KV'
-        args = [a.replace('(K)', '(%s)' % K) for a in args]
+        args = [a.replace('(K)', '(%s)' % K).replace('(K,', '(%s,' % K) for a in args]
         ptypes = ', '.join(pp[0] for pp in params if pp[0] != '...') + (', ...' if varargs else '')
         if not ptypes:
             ptypes = 'void'
@@ -591,7 +591,7 @@ def emit(probe=False):
             callee = '((%s (*)(%s)) (((void **) (%s))[%d]))' % (rtype, ptypes, tabsyms[sym], r['slot'])
         body = []
         body.append('static void c16_case_%d(struct c16_res *res, int variant)\n{' % n)
-        has_scalar = any('C16_SCALAR' in a or '(variant)' in a for a in args)
+        has_scalar = any('C16_SCALAR' in a or 'variant)' in a for a in args)
         for i, a in enumerate(args):
             body.append('    %s a%d = %s;' % (params[i][0] if params[i][0] != '...' else 'int', i, a))
         body.append('    c16_snap_begin(res);')
